@@ -49,8 +49,8 @@ XS = 'http://www.w3.org/2001/XMLSchema'
 XSI = 'http://www.w3.org/2001/XMLSchema-instance'
 MODES = ('all', 'none', 'local', 'remote', 'sandbox')
 MAIN_KINDS = ('path', 'file_url', 'text', 'open_file', 'remote_url', 'text_remote_base')
-MECHS = ('include', 'redefine', 'override', 'import', 'locations', 'mapper_dict', 'mapper_call', 'hint_child', 'hint_demand', 'hint_pkg')
-IMP_MECHS = ('import', 'locations', 'hint_child', 'hint_demand', 'hint_pkg')
+MECHS = ('include', 'redefine', 'override', 'import', 'locations', 'mapper_dict', 'mapper_call', 'hint_child', 'hint_demand', 'hint_pkg', 'hint_text')
+IMP_MECHS = ('import', 'locations', 'hint_child', 'hint_demand', 'hint_pkg', 'hint_text')
 REMOTE_BASE = 'http://vk.example/base/sand/'
 
 
@@ -277,6 +277,12 @@ def run_cell(res, xmlschema, fx, mode, main_kind, mech, cls, spell_name, loc):
                 list(xmlschema.iter_errors(doc_path, schema=source if main_kind != 'open_file' else fx.main_path,
                                            cls=version_cls, allow=mode, opener=opener, use_location_hints=True,
                                            **({'base_url': kwargs['base_url']} if 'base_url' in kwargs else {})))
+            elif mech == 'hint_text':
+                # the hints of a document given as text, without a URL or a base: fetch_schema_locations() applies
+                # `allow` to the hinted locations (under 'sandbox' there is no base to be inside of: refusal expected)
+                inst = (f'<root xmlns="urn:main" xmlns:xsi="{XSI}" xsi:schemaLocation="urn:imp {esc(loc)}">'
+                        f'<i:{child} xmlns:i="urn:imp">v</i:{child}></root>')
+                xmlschema.fetch_schema_locations(inst, allow=mode)
         except XMLResourceBlocked:
             outcome = 'blocked'
         except xmlschema.XMLSchemaException as e:
@@ -323,7 +329,7 @@ def run_shard(spec, res):
                 cell = {'layout': spec['layout'], 'mode': mode, 'main_kind': main_kind, 'mech': mech, 'target': cls,
                         'spelling': spell_name, 'location': loc}
                 ok = allowed(mode, cls, main_kind)
-                if mech == 'hint_pkg' and cls.startswith('remote_') and ok:
+                if mech in ('hint_pkg', 'hint_text') and cls.startswith('remote_') and ok:
                     # fetch_schema_locations() does not take the stub opener: an allowed remote hint would go to the
                     # network. Remote hints are exercised through this route only where the mode denies them.
                     res.count('skip:hint_pkg:allowed_remote_target_needs_network')
